@@ -117,6 +117,13 @@ func classifyEvent(e stun.Event) string {
 	case errors.Is(e.Error, sim.ErrInjectedWrite):
 		return "writeerr"
 	case errors.As(e.Error, &se) && errors.Is(se.Cause, sim.ErrInjectedWrite):
+		if se.Err == nil {
+			// StopErr is documented as "Client fails to stop transaction while
+			// processing error": one without a stop failure is not the error
+			// of the failed (re)transmission.
+			return "other:StopErr without a stop failure wrapping " + se.Cause.Error()
+		}
+
 		return "writeerr"
 	case errors.Is(e.Error, stun.ErrAgentClosed), errors.Is(e.Error, stun.ErrClientClosed):
 		return "closed"
@@ -458,7 +465,7 @@ func isWriteErr(err error) bool {
 		return true
 	}
 
-	return errors.As(err, &se) && errors.Is(se.Cause, sim.ErrInjectedWrite)
+	return errors.As(err, &se) && se.Err != nil && errors.Is(se.Cause, sim.ErrInjectedWrite)
 }
 
 // step executes one hop and checks it against the model.
